@@ -59,7 +59,25 @@ type oracleVal struct {
 var oracleCache = map[string]oracleVal{}
 var oracleHits, oracleMiss int
 
+type adapterPair struct {
+	re *regexp2.Regexp
+	ad *compat.Regexp
+}
+
+var adapters []adapterPair
+
+// adapterOf returns the run's adapter of a shared Regexp, or a new one (pristine world, Regexps made inside an operation).
+func adapterOf(re *regexp2.Regexp) *compat.Regexp {
+	for i := range adapters {
+		if adapters[i].re == re {
+			return adapters[i].ad
+		}
+	}
+	return compat.Wrap(re)
+}
+
 func resetGlobals(periodNs int64) {
+	adapters = adapters[:0]
 	syntax.VerifResetGlobals() // first: the other packages' initialisers may refer to its objects
 	regexp2.VerifResetGlobals()
 	compat.VerifResetGlobals()
@@ -171,6 +189,12 @@ func runScript(sc *Scenario, ro runOpts) *runResult {
 			return rr
 		}
 		res[i] = re
+	}
+	// one compat adapter per Regexp for the whole run (an adapter object is long-lived in an application);
+	// filled in before the clients exist and only read afterwards
+	adapters = adapters[:0]
+	for _, re := range res {
+		adapters = append(adapters, adapterPair{re, compat.Wrap(re)})
 	}
 	cfg := sc.Cfg
 	cfg.Trace = ro.trace
